@@ -1020,11 +1020,29 @@ def build_project_cases(ctx, projs, mutate):
                     fault = "empty_module_stream"
             else:
                 streams = [(("dirx" if n == "dir" else n), b) for n, b in streams]
+        # CFB-1: compound-file names compare up to the case of their ASCII letters (MS-CFB 2.6.4): the container
+        # may spell dir and the module streams in another case than the dir stream records them
+        def up(n):
+            return "".join(ch.upper() if "a" <= ch <= "z" else ch for ch in n)
+        keys_unique = len({up(n) for n, _ in streams}) == len(streams)
+        respelled = False
+        if keys_unique and rng.random() < 0.3:
+            def resp(n):
+                k = rng.random()
+                if k < 0.4:
+                    return up(n)
+                if k < 0.6:
+                    return "".join(ch.lower() if "A" <= ch <= "Z" else ch for ch in n)
+                return "".join(ch.swapcase() if ("a" <= ch <= "z" or "A" <= ch <= "Z") and rng.random() < 0.5 else ch for ch in n)
+            streams = [(resp(n), b) for n, b in streams]
+            respelled = True
         cfb = cfb_write(streams, rng, version=rng.choice([3, 3, 4]), shuffle=rng.random() < 0.6, decoys=rng.random() < 0.7)
         stext = ";".join("%s:%s" % (hx(n.encode("utf-8")), hx(b)) for n, b in streams)
         line = "%s\tvba\t%s\t%s\t%s" % (cid, cfb.hex(), stext, p["dec"])
         expected = None
-        if not c["mut"] and fault is None and p["valid"]:
+        if not keys_unique:
+            pass                                 # two streams of one name up to case: no legal container (model tie only)
+        elif not c["mut"] and fault is None and p["valid"]:
             if p["expected"] == "-":
                 expected = "err"                 # a libid without '#': VbaError::LibId is the documented outcome
             else:
@@ -1038,7 +1056,7 @@ def build_project_cases(ctx, projs, mutate):
         elif not c["mut"] and fault is None and not p["cp_known"]:
             expected = "err"
         out.append({"cid": cid, "line": line, "expected": expected, "p": p, "mut": c["mut"], "fault": fault,
-                    "streams": streams, "stext": stext, "cfb": cfb})
+                    "streams": streams, "stext": stext, "cfb": cfb, "respelled": respelled, "keys_unique": keys_unique})
     return out
 
 def biff_rec(t, data):
@@ -1193,6 +1211,10 @@ def run_projects(ctx, n_valid, n_mut_projects, n_mut_each):
         p = c["p"]
         tag = "project:" + ("mutated_dir" if c["mut"] else ("fault_" + c["fault"] if c["fault"] else ("valid" if p["valid"] else "invalid_description")))
         ctx.count(tag)
+        if c.get("respelled"):
+            ctx.count("project:stream_names_in_another_case")
+        if not c.get("keys_unique", True):
+            ctx.count("project:stream_names_equal_up_to_case(tie only)")
         ctx.count("project_outcome:" + (i or "none").split("|")[0])
         if not c["mut"] and not c["fault"]:
             ctx.count("project_codepage:%d" % p["cp"])
